@@ -47,7 +47,7 @@ def handlers : List (String → Json → Option (Except String Json)) :=
 
 /-- handlers that read or write the session state (installed vocabularies) -/
 def ioHandlers : List (String → Json → Option (IO (Except String Json))) :=
-  [HedVerif.Driver.C03.handleIO]
+  [HedVerif.Driver.C03.handleIO, HedVerif.Driver.C11.handleIO]
 
 def dispatchIO (j : Json) : IO (Option Json) := do
   match getString j "op" with
